@@ -153,7 +153,7 @@ def rule_S(ctx):
               'the value scattered is the feature value of that observation', witness={'values': sorted(vals)}, node=l3, key='value')
     # value grid allocated nrow x ncol
     t = unparse(f.node)
-    ctx.check('for i in range(self.nrow)' in t and 'for j in range(self.ncol)' in t, 'C19.S', f, 'the value grid has nrow x ncol cells',
+    ctx.recognise('for i in range(self.nrow)' in t and 'for j in range(self.ncol)' in t, 'C19.S', f, 'the value grid has nrow x ncol cells',
               witness={}, node=f.node, key='alloc')
 
 
@@ -248,7 +248,7 @@ def rule_A(ctx):
     if not ok:
         # tolerate other spellings: integer division forms
         ok = ('n // 2' in t) and ('0.5' in t or '/ 2' in t)
-    ctx.check(ok, 'C19.A', f, 'median: odd count -> middle element, even count -> mean of the two middle elements', witness={}, node=f.node, key='median-index')
+    ctx.recognise(ok, 'C19.A', f, 'median: odd count -> middle element, even count -> mean of the two middle elements', witness={}, node=f.node, key='median-index')
 
 
 def rule_N(ctx):
@@ -264,13 +264,13 @@ def rule_N(ctx):
     ctx.check(okn and okv, 'C19.N', f, 'a NaN aggregate is stored as the no-data value, any other aggregate as itself',
               witness={'stores': [repr(e)[:100] for e in stores]}, node=f.node, key='nodata')
     t = unparse(f.node)
-    ctx.check("names = afmap.getName().split('#')" in t and 'aggregate = names[1]' in t and "eval(aggregate + '(tarray)')" in t and
+    ctx.recognise("names = afmap.getName().split('#')" in t and 'aggregate = names[1]' in t and "eval(aggregate + '(tarray)')" in t and
               'afname = names[0]' in t and 'self.collectionValuesGrid[afname][i][j]' in t, 'C19.D', f,
               'the aggregate applied to cell (i,j) of feature F is the function named after # in the map key, on the values scattered for F in that cell',
               witness={}, node=f.node, key='dispatch')
     g = ctx.prog.func(RAS + '.AFMap.getMeasureName')
     tg = unparse(g.node)
-    ctx.check(tg.count("'#' + aggregate.__name__") >= 3, 'C19.D', g, 'map keys are <feature>#<aggregate function name>',
+    ctx.recognise(tg.count("'#' + aggregate.__name__") >= 3, 'C19.D', g, 'map keys are <feature>#<aggregate function name>',
               witness={}, node=g.node, key='key')
     m = ctx.prog.module(RAS)
     imported = set()
